@@ -22,6 +22,10 @@ CLAIMED = {
             'TLC invariants MarkerIdx/EofClears + refinement; TLC trace validation of EOF/TIMEOUT outcome clauses on every entry point',
             'outcome table (index if listed else exact exception class, before = all pending, after = marker class, pending cleared after EOF, EOF sticky) decided on every recorded call',
             'as C01; real transports are added by the transport checks', '5 C04', 'expect'),
+    'C06': ('model_checking',
+            'TLA+ models PtyRead/FdRead/SockRead of read_nonblocking (one action per system call) x peer x process table checked by TLC in every interleaving; every single-call path of the TLC state graph replayed on the real transport by system-call interposition; recorded traces matched against the TLC state graph',
+            'TLC proves prefix-in-order / EOF-only-when-drained / at-most-size / socket-timeout-restored for all interleavings in the bound; the same interleavings are forced on real pty children, pipes, pty and socket descriptors and socketpairs between the real system calls of the real code and the bytes compared',
+            'real Linux kernel semantics observed, not modelled beyond readiness/short reads; units are single bytes; PopenSpawn see notes', '5 C06', 'transport'),
     'C20': ('model_checking',
             'TLA+ decision table PatternForms enumerated and checked for consistency by TLC; one implementation test per table row (MongoDB-style): same scripted stream under the form and under the reference pattern',
             'every row of the table (mode x ignorecase x form x flag set x entry point) is executed on the real code over discriminating streams; rejected rows must raise TypeError with nothing read and pending text intact',
@@ -63,6 +67,9 @@ def main():
             {'name': 'expect', 'path': 'spec/ExpectAbs.tla spec/ExpectImpl.tla spec/ExpectTrace.tla harness/checks/expect_family.py',
              'serves_properties': ['C01', 'C02', 'C03', 'C04'],
              'kind_free_text': 'TLC model checking + TLC batch trace validation of the real expect family on a scripted transport'},
+            {'name': 'transport', 'path': 'spec/PtyRead.tla spec/FdRead.tla spec/SockRead.tla harness/world.py harness/graphtrace.py harness/checks/transport.py',
+             'serves_properties': ['C06', 'C05'],
+             'kind_free_text': 'TLC interleaving models of read_nonblocking + schedule replay on real transports through system-call interposition + trace matching against the TLC state graph'},
             {'name': 'patternforms', 'path': 'spec/PatternForms.tla harness/checks/c20.py', 'serves_properties': ['C20'],
              'kind_free_text': 'TLC-enumerated decision table, one implementation test per row'},
         ],
